@@ -41,3 +41,9 @@ def val_bits(s: "seq[int]", p: "int", n: "int") -> "int":
     if n <= 0:
         return 0
     return val_bits(s, p, n - 1) + padbit(s, p + n - 1) * pw2(n - 1)
+
+
+@pure
+def BufOK(b: "arr", s: "seq[int]", a: "int") -> "bool":
+    """writer state: b packs s and the cursor is at the end"""
+    return Rep(b, s) and a == len(s)
